@@ -186,7 +186,7 @@ def main():
         "hooks": {
             "guard": "tuc_verif",
             "enable": "no source hook is needed: every entry point the checks call is `pub`; the guard name is reserved and unused",
-            "baseline_off_cmd": "bin/repo-tests",
+            "baseline_off_cmd": "cd /repo && cargo test --workspace --no-fail-fast --offline",
             "source_commits": [],
             "add_only": True,
         },
